@@ -96,6 +96,7 @@ type node struct {
 	wallets []string           // wallet ids (file names)
 	encWlt  string
 	wltAddr []cipher.Address
+	abandon bool
 }
 
 type panicLog struct {
@@ -339,6 +340,12 @@ func newNode(r *Rng, nBlocks int) (*node, error) {
 }
 
 func (n *node) close() {
+	if n.abandon {
+		// a handler is still running (the unbounded-count witness): do not wait for it
+		os.RemoveAll(n.dir)
+		n.w.Cleanup()
+		return
+	}
 	if n.srv != nil {
 		n.srv.CloseClientConnections()
 		done := make(chan struct{})
@@ -1321,6 +1328,9 @@ func run(args []string) error {
 			caseJSON["unbounded_count"] = append(caseJSON["unbounded_count"], map[string]interface{}{"path": rt.Path, "method": "POST", "body": u.vals.Encode(),
 				"param": u.param, "kind": "count_param", "observed": ob.kind, "status": ob.status, "detail": ob.detail, "watchdog_s": 4})
 			hist.Add("unbounded_count:" + ob.kind)
+			if ob.kind == "hang" {
+				n.abandon = true
+			}
 			o.Count("unbounded "+u.path, true)
 		}
 	}
